@@ -205,8 +205,12 @@ Print Assumptions C05_frame_age_partial.
     rate R is attached (fresh limiter); then the calls [ops].  At the instant of every call that
     comes at least 1 ms after the attach (the last one of [ops]; every prefix ending that late is
     again such a history) a frame has been painted SINCE the attach, and the most recent one is
-    younger than one refresh interval plus 1 ms.  _partial: frame age only, stand-alone bar, and
-    nothing is claimed for the first millisecond after the attach - rightly so, next theorem. *)
+    younger than one refresh interval plus 1 ms.  _partial: (1) frame age only; (2) stand-alone
+    bar; (3) the new target's limiter is created AT the attach instant [t0] ([sys_attach] uses
+    [rl_new R t0], and every call of [pre] is <= t0 <= every call of [ops]): a ProgressDrawTarget
+    constructed earlier than the set_draw_target call, with calls on the hidden bar in between,
+    is not an instance; (4) nothing is claimed for the first millisecond after the attach -
+    rightly so, next theorem, which states its witness history explicitly. *)
 Theorem C05_frame_age_late_target_partial : forall (R t0 tb len0 : N) (pre ops : list (N * N * bop)),
   1 <= R <= 255 -> tb <= t0 ->
   nondec tb (map op_time pre) -> (forall t, In t (map op_time pre) -> t <= t0) ->
@@ -224,13 +228,22 @@ Print Assumptions C05_frame_age_late_target_partial.
     position limiter; a 1 Hz target is attached at 0.5 ms; the inc at 0.5 ms and at 0.9 ms are both
     swallowed by the bar's own limiter (next token at 1 ms): no frame, although the new target's
     bucket is full.  Not a defect - within 1 ms the next update reaches -, but it is why
-    C05_frame_age_partial (fresh bars) does not cover set_draw_target.  (docs/AUDIT3.md, 25.) *)
+    C05_frame_age_partial (fresh bars) does not cover set_draw_target.  (docs/AUDIT3.md, 25.)
+    The statement is the conjunction of all hypotheses of the _partial theorem but the 1 ms one,
+    its negation, and "no frame", for the explicit witness. *)
 Theorem C05_frame_age_late_target_refuted :
-  exists pre ops,
-    nondec 0 (map op_time pre) /\ (forall t, In t (map op_time pre) -> t <= 500000) /\
-    ops_valid 1 pre /\ ops_valid 1 ops /\ ops <> [] /\ nondec 500000 (map op_time ops) /\
-    last_paint None (map op_time (pre ++ ops))
-      (late_run (false, Some 1, 500000, [(0, 100)]) pre ops) = None.
+  let pre := map (fun _ : nat => (400000, 0, OInc 1)) (seq 0 10) in
+  let ops := [(500000, 0, OInc 1); (900000, 0, OInc 1)] in
+  (* every hypothesis of the _partial theorem for R = 1, tb = 0, t0 = 500000 ... *)
+  1 <= 1 <= 255 /\ 0 <= 500000 /\
+  nondec 0 (map op_time pre) /\ (forall t, In t (map op_time pre) -> t <= 500000) /\
+  ops_valid 1 pre /\ ops_valid 1 ops /\ ops <> [] /\ nondec 500000 (map op_time ops) /\
+  (forall t, In t (map op_time (pre ++ ops)) -> t < 0 + U64) /\
+  (* ... except the last one: the last call comes less than 1 ms after the attach ... *)
+  last (map op_time ops) 0 < 500000 + 1000000 /\
+  (* ... and no frame has been painted *)
+  last_paint None (map op_time (pre ++ ops))
+    (late_run (false, Some 1, 500000, [(0, 100)]) pre ops) = None.
 Proof. exact late_frame_age_refuted. Qed.
 Print Assumptions C05_frame_age_late_target_refuted.
 
